@@ -87,7 +87,16 @@ static void setup(size_t len, unsigned start)
 	memset(store, 0xA5, len);
 #endif
 	if (setup_no & 1) {
+		/* ringbuf_init describes a fresh ring whatever the descriptor held before: a previous life, or junk */
+		if (setup_no & 2)
+			memset(&rb, 0xA5, sizeof(rb));
 		ringbuf_init(&rb, store, len);
+		if (atomic_load(&rb.readi) != atomic_load(&rb.writei) || atomic_load(&rb.readi) >= len || rb.bufp != store || rb.buf_len != len) {
+			viol("init-leaves-stale-state", "ringbuf_init on a used descriptor gave readi %u writei %u buf_len %zu (wanted an empty ring of %zu)",
+			     (unsigned)atomic_load(&rb.readi), (unsigned)atomic_load(&rb.writei), rb.buf_len, len);
+			init_differs = true;
+		}
+		VH_COUNT("rings_initialised_over_a_used_descriptor");
 	} else {
 		/* the static initialiser must describe the same ring; its arguments are expressions of non-byte
 		 * pointer type and of lower precedence than a cast or a multiplication (macro hygiene) */
